@@ -171,6 +171,12 @@ func runHeaderCase(c *core.Case) *core.Result {
 		res.Violate("C16", "header-format", "header-format", fmt.Sprintf("the header written by commit txid=%d is not valid according to the documented format (magic, version, FNV-32a checksum over the first 80 bytes): harness decoder sees valid=%v txid=%d", b.txid, hNew.Valid, hNew.Txid), map[string]interface{}{"config": cfg})
 		return res
 	}
+	// the other slot holds the previous header; nobody damaged it, so it has to
+	// be valid as well (it is what recovery falls back to)
+	if hOld := ParseHeader(b.img, (1-slotNew)*ps); !hOld.Valid || hOld.Txid != b.txid-1 {
+		res.Violate("C16", "header-format", "header-format:older-slot", fmt.Sprintf("undamaged image after txid=%d: the older header slot %d is not a valid header of txid %d according to the documented format (harness decoder: valid=%v txid=%d); a damaged newest header could not be survived", b.txid, 1-slotNew, b.txid-1, hOld.Valid, hOld.Txid), map[string]interface{}{"config": cfg})
+		return res
+	}
 	if w.States[b.txid-1] == nil {
 		res.Status, res.Note = core.Inconclusive, "no-previous-state"
 		return res
